@@ -599,13 +599,31 @@ func genC17Conc(t *rapid.T) C17Case {
 	return c
 }
 
+var (
+	refMu    sync.Mutex
+	refCache = map[string]string{}
+)
+
 func checkC17Conc(c C17Case) h.Outcome {
 	o := h.Outcome{NonTrivial: true, Classes: []string{fmt.Sprintf("goroutines:%d", len(c.Ops))}}
-	// sequential reference on fresh SPs
+	// sequential reference on fresh SPs (memoised per configuration and operation: the reference is a pure
+	// function of both, and the repeated first-use races below ask for the same few thousands of times)
+	cfgKey, _ := json.Marshal(c.SP)
 	want := make([][]string, len(c.Ops))
 	for g, ops := range c.Ops {
 		for _, op := range ops {
-			want[g] = append(want[g], op.run(c.SP.Build()))
+			opKey, _ := json.Marshal(op)
+			k := string(cfgKey) + "|" + string(opKey)
+			refMu.Lock()
+			w, ok := refCache[k]
+			refMu.Unlock()
+			if !ok {
+				w = op.run(c.SP.Build())
+				refMu.Lock()
+				refCache[k] = w
+				refMu.Unlock()
+			}
+			want[g] = append(want[g], w)
 			o.Classes = append(o.Classes, "op:"+op.Kind)
 		}
 	}
@@ -694,11 +712,11 @@ func TestC17_GridFirstUse(t *testing.T) {
 			}
 		}
 	}
-	// the first signature of a fresh instance, raced by 12 goroutines, over and over (non-default algorithm)
-	for i := 0; i < 40; i++ {
+	// the first signature of a fresh instance, raced by 48 goroutines, 150 times over (non-default algorithm)
+	for i := 0; i < 150; i++ {
 		c := C17Case{SP: c17SP(2)}
-		for g := 0; g < 12; g++ {
-			c.Ops = append(c.Ops, []C17Op{{Kind: []string{"authn-str", "logout-req", "sign-el", "logout-resp"}[(g+i)%4], Input: g, Arg: "r"}})
+		for g := 0; g < 48; g++ {
+			c.Ops = append(c.Ops, []C17Op{{Kind: []string{"authn-str", "logout-req", "sign-el", "logout-resp"}[(g+i)%4], Input: 0, Arg: "r"}})
 		}
 		cases = append(cases, c)
 	}
